@@ -161,6 +161,10 @@ def direct_ops():
         async for w in usim.first(nothing(), nothing(), count=1):
             pass
 
+    async def first0(st):
+        async for w in usim.first(nothing(), nothing(), count=0):
+            pass
+
     async def chan_iter_buffered(st):
         # two messages buffered for this consumer: the step to the second one must yield (D15)
         n = 0
@@ -200,6 +204,7 @@ def direct_ops():
         ('collect of nothing', collect0),
         ('collect of finished activities', collect2),
         ('first of immediately finishing activities', first1),
+        ('first with count=0 (nothing to wait for)', first0),
         ('channel put without consumer', lambda st: st['chan0'].put(1)),
         ('channel close', lambda st: st['chan0'].close()),
         ('queue iteration step with a buffered item', queue_iter_buffered),
